@@ -21,7 +21,7 @@ func vSymPod(ownerShape int, withPool bool) *corev1.Pod {
 		pod.OwnerReferences = []metav1.OwnerReference{{Kind: "ReplicaSet", Name: nondetString("dns1123subdomain")}}
 	case 3:
 		// a finite family of other kinds (cvc5 does not decide str.to_lower over a symbolic kind within the time limit)
-		pod.OwnerReferences = []metav1.OwnerReference{{Kind: nondetPick("TApp", "Statefulset", "StatefulSets", "Deployment", "CloneSet", "Job"), Name: nondetString("dns1123subdomain")}}
+		pod.OwnerReferences = []metav1.OwnerReference{{Kind: nondetPick("TApp", "Statefulset", "StatefulSets", "Deployment", "CloneSet", "Job", "Compass", "Redis"), Name: nondetString("dns1123subdomain")}}
 	}
 	if withPool {
 		pod.Annotations = map[string]string{constant.IPPoolAnnotation: nondetString("dns1123subdomain")}
